@@ -489,36 +489,51 @@ impl Server {
             }
         };
         
-        // Critical fix: Only proceed if we actually got data
-        // This prevents race conditions when multiple clients wake up simultaneously
-        if let Some(popped_value) = value {
-            // Try to update connection state - use try_with_connection to avoid deadlock
-            if let Some(result) = self.connections.with_connection(wakeup.conn_id, |conn| -> Result<()> {
-                // Only wake if still in blocked state
-                if let ConnectionState::Blocked(_) = conn.state {
-                    // Send the response with the atomically popped value
-                    let response = RespFrame::Array(Some(vec![
-                        RespFrame::from_bytes(wakeup.key.clone()),
-                        RespFrame::from_bytes(popped_value),
-                    ]));
-                    
-                    // Try to send response - if connection is closed, ignore error
-                    if let Err(_) = conn.send_frame(&response) {
-                        // Connection closed - this is okay, just return
-                        return Ok(());
+        match value {
+            Some(popped_value) => {
+                // Deliver only if the client is still blocked
+                let delivered = self.connections.with_connection(wakeup.conn_id, |conn| -> bool {
+                    if let ConnectionState::Blocked(_) = conn.state {
+                        let response = RespFrame::Array(Some(vec![
+                            RespFrame::from_bytes(wakeup.key.clone()),
+                            RespFrame::from_bytes(popped_value.clone()),
+                        ]));
+                        if conn.send_frame(&response).is_err() {
+                            return false;
+                        }
+                        // Return connection to authenticated state
+                        conn.state = ConnectionState::Authenticated;
+                        true
+                    } else {
+                        false
                     }
-                    
-                    // Return connection to authenticated state
-                    conn.state = ConnectionState::Authenticated;
+                }).unwrap_or(false);
+                
+                // Nobody took the element (client gone or no longer blocked): put it back
+                // at the end it was popped from instead of losing it
+                if !delivered {
+                    match wakeup.op_type {
+                        super::connection::BlockingOp::BLPop => { self.storage.lpush(wakeup.db, wakeup.key.clone(), vec![popped_value])?; }
+                        _ => { self.storage.rpush(wakeup.db, wakeup.key.clone(), vec![popped_value])?; }
+                    }
                 }
-                Ok(())
-            }) {
-                // Execute the result and ignore any connection errors
-                let _ = result;
+            }
+            None => {
+                // The element was taken by another pop before this wake-up ran. The client was
+                // removed from the registry when it was notified: register it again, or it
+                // would stay blocked with nothing left to serve it or time it out
+                let blocked = self.connections.with_connection(wakeup.conn_id, |conn| {
+                    if let ConnectionState::Blocked(ref state) = conn.state {
+                        Some((state.keys.iter().map(|(_, k)| k.clone()).collect::<Vec<_>>(), state.deadline, state.op_type.clone()))
+                    } else {
+                        None
+                    }
+                }).flatten();
+                if let Some((keys, deadline, op_type)) = blocked {
+                    self.blocking_manager.register_blocked(wakeup.db, wakeup.conn_id, keys, op_type, deadline)?;
+                }
             }
         }
-        // If value is None (list was empty), the client should be timed out normally
-        // This is correct behavior - multiple wake-ups for same item result in only one getting data
         
         Ok(())
     }
